@@ -1,6 +1,6 @@
 (* C01 - write then read returns the same field: executable model of the CORE FRAGMENT of
    NetCDFWrite._write_field_or_domain / NetCDFRead._create_field_or_domain (cfdm 1.11.2.0 with
-   C01-fix-1..3 applied; the superseded code is kept as ..._old, see Refuted.v).
+   C01-fix-1, -3, -4 applied; the superseded code is kept as ..._old, see Refuted.v).
 
    Fragment: one field construct; domain axes (size, netCDF dimension name, unlimited flag);
    data over a list of axes; per axis at most one dimension coordinate, written as a coordinate
